@@ -56,7 +56,9 @@ TRegister ==
                   /\ Ev.cb.beh # "oneshot" => Len(Ev.icalls) = Cardinality(S)
                   /\ \A i \in 1 .. Len(Ev.icalls) : Ev.icalls[i].e = cache[<<Ev.icalls[i].m, Ev.icalls[i].p>>])
      /\ Register(Ev.cb, S)
-     /\ Clause(6, cbs' = ToSet(Ev.cbs))
+     \* merged: not the last callback of ONE register_callback call - the set in between is not observable
+     /\ Clause(6, Ev.merged \/ cbs' = ToSet(Ev.cbs))
+     /\ Clause(5, Ev.foreign = 0)
      /\ Clause(4, ObsKeysOK(Ev.cache) /\ cache' = ObsCache(Ev.cache))
 
 TUnregister == /\ Unregister(Ev.cb)
